@@ -46,6 +46,21 @@ class P(Prop):
             n = rng.randint(2, 6)
             c = sysrun.gen_electric_case(rng, n=n) if kind == "electric" else sysrun.gen_mechanical_case(rng, n=n)
             c["kind"] = kind
+            # a store charged and discharged with the same power for different lengths of time: the samples of its
+            # (signed) rate cancel in a plain sum, the energy does not
+            if kind == "electric" and rng.random() < 0.35:
+                for d, ci in zip(c["plant"]["comps"], c["inp"]["comps"]):
+                    if d["cls"] in ("battery", "battery_sys", "supercap", "supercap_sys"):
+                        d["cls"] = "battery" if d["cls"].startswith("battery") else "supercap"
+                        d["bat"] = {**d.get("bat", {}), "eff_c": 1, "eff_d": 1}
+                        x = Fraction(rng.randint(1, 16), 32) * Fraction(d["rated"])
+                        sign = rng.choice([1, -1])
+                        pin = [x * sign * (1 if t % 2 == 0 else -1) for t in range(n)]
+                        if n % 2:
+                            pin[-1] = Fraction(0)
+                        ci.update({"status": [True] * n, "lsm": [Fraction(1)] * n, "pin": pin})
+                        c["cancelling_storage_series"] = True
+                        break
             c["split"] = rng.randint(1, n - 1)
             perm = list(range(n))
             rng.shuffle(perm)
@@ -142,6 +157,8 @@ class P(Prop):
         inp = case["inp"]
         if "rejected" in obs:
             t.append("rejected:" + obs["rejected"].split(":")[0])
+        if case.get("cancelling_storage_series"):
+            t.append("storage-charged-and-discharged-with-equal-power")
         if inp.get("sts") and any(inp["sts"][i] != inp["sts"][i - 1] for i in range(1, inp["n"])):
             t.append("breaker-change-in-series")
             ch = [i for i in range(1, inp["n"]) if inp["sts"][i] != inp["sts"][i - 1]]
